@@ -169,9 +169,38 @@ def census_job() -> list[dict[str, Any]]:
 # --------------------------------------------------------------------------------------------
 
 
-def _py_accepts(sig: inspect.Signature, npos: int, kws: list[str]) -> bool:
+def _clone_fn(sig: inspect.Signature):
+    """A real function with the same parameter list (names, kinds, which have defaults): calling it
+    is the interpreter's own binding algorithm for this signature."""
+    P = inspect.Parameter
+    params = list(sig.parameters.values())
+    parts = []
+    kinds = [p.kind for p in params]
+    slash_done = star_done = False
+    for i, p in enumerate(params):
+        if p.kind != P.POSITIONAL_ONLY and not slash_done and P.POSITIONAL_ONLY in kinds[:i]:
+            parts.append("/")
+            slash_done = True
+        if p.kind == P.KEYWORD_ONLY and not star_done and P.VAR_POSITIONAL not in kinds:
+            parts.append("*")
+            star_done = True
+        if p.kind == P.VAR_POSITIONAL:
+            parts.append("*" + p.name)
+            star_done = True
+        elif p.kind == P.VAR_KEYWORD:
+            parts.append("**" + p.name)
+        else:
+            parts.append(p.name + ("=None" if p.default is not inspect._empty else ""))
+    if P.POSITIONAL_ONLY in kinds and not slash_done:
+        parts.append("/")
+    ns: dict[str, Any] = {}
+    exec("def f(" + ", ".join(parts) + "):\n    return 1\n", ns)
+    return ns["f"]
+
+
+def _py_accepts(fn: Any, npos: int, kws: list[str]) -> bool:
     try:
-        sig.bind(*([0] * npos), **{k: 0 for k in kws})
+        fn(*([0] * npos), **{k: 0 for k in kws})
         return True
     except TypeError:
         return False
@@ -182,13 +211,17 @@ def bindcheck_job(forms: list[dict[str, Any]]) -> dict[str, Any]:
     sl = slots()
     bad = []
     n = 0
+    clones: dict[tuple[int, str], Any] = {}
     for f in forms:
         r = sl[f["s"]]
         sig = r["osig"] if f["w"] == "o" else r["ssig"]
         if sig is None:
             continue
+        ck = (f["s"], f["w"])
+        if ck not in clones:
+            clones[ck] = _clone_fn(sig)
         n += 1
-        py = _py_accepts(sig, f["np"], list(f["kw"]))
+        py = _py_accepts(clones[ck], f["np"], list(f["kw"]))
         if py != bool(f["acc"]):
             bad.append({**f, "python": py, "slot": r["id"]})
     return {"n": n, "bad": bad[:20]}
